@@ -179,9 +179,13 @@ def perform(query, family, par, ch, objs=None):
         from anytree import PreOrderIter, cachedsearch, search
 
         name = "foo"
+
+        def pyval(v):
+            return None if v == "none" else v
+
         for lbl, v in query["attr"].items():
             if v != "absent":
-                setattr(objs[lbl], name, v)
+                setattr(objs[lbl], name, pyval(v))
         start = objs[query["s"]]
         ml = None if query["ml"] == NOMAX else query["ml"]
         want = set(l for l, v in query["attr"].items() if v == query["value"])
@@ -189,9 +193,9 @@ def perform(query, family, par, ch, objs=None):
         b = dict(mincount=None if query["minc"] == NOBOUND else query["minc"], maxcount=None if query["maxc"] == NOBOUND else query["maxc"])
         res = {}
         for modname, mod in (("search", search), ("cachedsearch", cachedsearch)):
-            r = found_obs(lambda: mod.findall_by_attr(start, query["value"], name=name, maxlevel=ml, **b))
+            r = found_obs(lambda: mod.findall_by_attr(start, pyval(query["value"]), name=name, maxlevel=ml, **b))
             res[modname + ".all"] = r if isinstance(r, dict) else {"err": "none", "val": [lab(x) for x in r], "nums": []}
-            r = found_obs(lambda: mod.find_by_attr(start, query["value"], name=name, maxlevel=ml))
+            r = found_obs(lambda: mod.find_by_attr(start, pyval(query["value"]), name=name, maxlevel=ml))
             res[modname + ".one"] = r if isinstance(r, dict) else {"err": "none", "val": [] if r is None else [lab(r)], "nums": []}
         obs["res"] = res
     else:
